@@ -301,7 +301,7 @@ impl Check for C19 {
         n_exh_cases(tier) + n_rand_cases(tier)
     }
     fn rule(&self) -> &'static str {
-        "exhaustive: every string of length <= L over {a, é, ♠, LF, CR, space} (L=4 quick, 6 thorough) x every chunking into <= 3 feeds x every char-boundary offset x every char-boundary span, through NewlineCache, NonStreamingLexer::{line_col,span_lines_str} and LexParseError::pp; plus random longer texts (5-60 pieces incl. CRLF, 4-byte chars) with random chunkings. Non-trivial = text contains at least one LF; distinct by text."
+        "exhaustive: every string of length <= L over {a, é, ♠, LF, CR, space} (L=4 quick, 6 thorough) x every chunking into <= 3 feeds x every char-boundary offset x every char-boundary span, through NewlineCache, NonStreamingLexer::{line_col,span_lines_str} LexParseError::pp and lrpar::diagnostics::SpannedDiagnosticFormatter::{file_location_msg at every offset, underline_span_with_text over sampled spans}; plus random longer texts (5-60 pieces incl. CRLF, 4-byte, double-width, zero-width and combining chars) with random chunkings. Non-trivial = text contains at least one LF; distinct by text."
     }
     fn assumptions(&self) -> Vec<&'static str> {
         vec![
